@@ -593,40 +593,76 @@ def rule_prologue(check):
                         check.bad(R, "%s/position/%s" % (R, g_.name), hir.loc(n_), "the file prologue is inserted after the *last* string-literal statement of the file instead of after the leading directives: hook calls above it run before `_ddiast` has its fall-back definition")
     g = prog.fn("rewriter::generate_prefix_stmts")
     # the part of it (itself or a helper) that fills the template
-    for g_ in prog.flat(g, 2):
-        if any(hir.lit_value(hir.call_args(x)[1]) == "__CSI_METHODS__" for x in hir.calls_in(g_.body, name="replace") if len(hir.call_args(x)) > 1):
-            g = g_
-            break
-    fm = fmtargs.formats_in(g)
+    def _strval(fn_, e_):
+        """a string literal, or a crate constant that is one"""
+        e_ = hir.peel_transparent(e_)
+        v_ = hir.lit_value(e_) if e_.get("k") == "Lit" else None
+        if isinstance(v_, str):
+            return v_
+        dp_ = hir.def_path_of(e_)
+        if dp_:
+            try:
+                return prog.const_str(dp_)
+            except AnchorMissing:
+                return None
+        return None
+
+    reps = [(g_, x) for g_ in prog.flat(g, 2) for x in hir.calls_in(g_.body, name="replace") if len(hir.call_args(x)) > 2 and _strval(g_, hir.call_args(x)[1]) == "__CSI_METHODS__"]
+    check.expect(len(reps) == 1, R, R + "/placeholder", hir.loc(g.rec), "the generated entries replace __CSI_METHODS__ in the template", "the template placeholder is not filled with the generated entries")
+    # where the entries are put together: the function that fills the placeholder, the helper that returns
+    # the replacement text, and closures in them
+    builders = []
+    if reps:
+        g = reps[0][0]
+        builders.append(g)
+        for x in hir.walk(hir.call_args(reps[0][1])[2]):
+            h_ = prog.resolve_local(x) if hir.is_call(x) and x.get("callee") else None
+            if h_ is not None and h_.body is not None and h_ not in builders:
+                builders.append(h_)
+    SEP = (", ", ",", ",\n", ", \n")
     ok = False
-    for n, pieces in fm:
-        if [k for k, v in pieces] == ["arg", "lit"] and pieces[1][1] == ": noop":
-            ok = (hir.place(pieces[0][1]) or "").endswith(".dst")
-            # iteration source and adapters
-            cl = None
-            for a in g.ancestors(n):
+    n_entry = 0
+    for b_ in builders:
+        for n, pieces in fmtargs.text_assemblies(prog, b_):
+            core = [(k, v) for k, v in pieces if not (k == "lit" and v in SEP)]
+            if not ([k for k, v in core] == ["arg", "lit"] and core[1][1] == ": noop"):
+                continue
+            n_entry += 1
+            ok = (hir.place(core[0][1]) or "").endswith(".dst")
+            # every configured method, in order: the entry is built inside a closure of / a loop over
+            # `<csi methods>.methods` reached through element-wise adapters only
+            site = core[0][1]
+            src, chain, outer, how = None, [], [], None
+            for a in b_.ancestors(site):
                 if a.get("k") == "Closure":
-                    cl = a
+                    call = b_.parent(a)
+                    while call is not None and not hir.is_call(call):
+                        call = b_.parent(call)
+                    x = call
+                    while x is not None and x.get("k") == "MethodCall":
+                        chain.append(x["method"])
+                        x = hir.peel(x["recv"])
+                    src = x
+                    y = b_.parent(call) if call is not None else None
+                    while y is not None and y.get("k") == "MethodCall":
+                        outer.append(y["method"])
+                        y = b_.parent(y)
+                    how = "closure"
                     break
-            call = g.parent(cl) if cl else None
-            while call is not None and not hir.is_call(call):
-                call = g.parent(call)
-            chain = []
-            x = call
-            while x is not None and x.get("k") == "MethodCall":
-                chain.append(x["method"])
-                x = hir.peel(x["recv"])
-            src_ok = chain == ["map", "iter"] and (hir.place(x) or "").endswith(".methods")
-            outer = []
-            y = g.parent(call)
-            while y is not None and y.get("k") == "MethodCall":
-                outer.append(y["method"])
-                y = g.parent(y)
-            check.expect(src_ok and outer[:2] == ["collect", "join"], R, R + "/all-methods", hir.loc(n), "csi_methods.methods.iter().map(dst: noop).collect().join(..): every configured name", "prologue names are generated by %s over %s then %s" % (chain, hir.describe(x) if x else None, outer))
-    check.expect(ok, R, R + "/dst-noop", hir.loc(g.rec), "each entry is `<dst>: noop`", "prologue entries are not `<dst>: noop`")
-    rep = [x for x in hir.calls_in(g.body, name="replace")]
-    ok = len(rep) == 1 and hir.lit_value(hir.call_args(rep[0])[1]) == "__CSI_METHODS__"
-    check.expect(ok, R, R + "/placeholder", hir.loc(g.rec), "the generated entries replace __CSI_METHODS__ in the template", "the template placeholder is not filled with the generated entries")
+                if a.get("k") == "Match" and a.get("source", "").startswith("ForLoopDesugar") and hir.is_call(hir.peel(a["scrut"])) and (hir.callee_name(hir.peel(a["scrut"])) or "") == "into_iter":
+                    x = hir.peel(hir.call_args(hir.peel(a["scrut"]))[0])
+                    while x is not None and x.get("k") == "MethodCall":
+                        chain.append(x["method"])
+                        x = hir.peel(x["recv"])
+                    src = x
+                    how = "loop"
+                    break
+            elementwise = all(m in ("iter", "map", "enumerate", "into_iter", "by_ref", "inspect") for m in chain) and "iter" in chain + ["iter"]
+            src_ok = src is not None and (hir.place(src) or "").endswith(".methods") and elementwise and (how == "loop" or (chain[:1] == ["map"] and outer[:2] == ["collect", "join"]) or (chain[:1] == ["for_each"]))
+            if how == "closure" and chain[:1] == ["for_each"]:
+                src_ok = (hir.place(src) or "").endswith(".methods") and all(m in ("for_each", "iter", "enumerate", "into_iter") for m in chain)
+            check.expect(bool(src_ok), R, R + "/all-methods", hir.loc(n), "one entry per element of csi_methods.methods, in order (element-wise adapters only)", "prologue names are generated by %s over %s then %s" % (chain, hir.describe(src) if src else None, outer))
+    check.expect(ok and n_entry == 1, R, R + "/dst-noop", hir.loc(g.rec), "each entry is `<dst>: noop`", "prologue entries are not `<dst>: noop`")
     tpl = prog.js.get("prologue_template")
     if not tpl or not tpl.get("ok"):
         raise AnchorMissing("prologue template parse")
